@@ -101,6 +101,11 @@ func unwrap(v interface{}) interface{} {
 	if i.Kind() == reflect.Invalid {
 		return nil
 	}
+	// A []byte field is advertised as the non-null scalar "bytes": render a nil
+	// slice as empty bytes (like nil lists render as []) instead of JSON null.
+	if i.Kind() == reflect.Slice && i.IsNil() && i.Type().Elem().Kind() == reflect.Uint8 {
+		return reflect.MakeSlice(i.Type(), 0, 0).Interface()
+	}
 	return i.Interface()
 }
 
